@@ -59,7 +59,7 @@ pub fn staged_round(tx: &tir::Tx, fee: u64, compiler: &mut tx3_cardano::Compiler
 
 pub fn check_case(tape: &[u16], rc: &mut RCase) -> Result<(), Failure> {
     let mut t = Tape::new(tape);
-    let opts = ROpts { max_inputs: 4, tight_store: true, allow_min_utxo: false, allow_reference_blocks: true, ..ROpts::default() };
+    let opts = ROpts { max_inputs: 4, tight_store: true, allow_min_utxo: false, allow_reference_blocks: true, allow_names_differing_in_case: true, ..ROpts::default() };
     let mut sc: Scenario = rgen::generate(&mut t, &opts);
     // make the queries overlap: same party for most blocks, nested thresholds, equal refs
     for i in 1..sc.ins.len() {
@@ -92,10 +92,21 @@ pub fn check_case(tape: &[u16], rc: &mut RCase) -> Result<(), Failure> {
         }
         n
     };
+    // two blocks whose names differ in case only share one name in the IR: either the front end refuses the
+    // program, or the two blocks are served like any other pair
+    let colliding = (0..sc.ins.len()).any(|a| (0..a).any(|b| sc.ins[a].name.to_lowercase() == sc.ins[b].name.to_lowercase()));
     let tir = match pipeline::front(&src, &sc.tx_name) {
         Ok(t) => t,
+        Err(e) if colliding && e.stage() == "analyze" && e.describe().contains("DuplicateDefinition") => {
+            rc.label("input_names_differing_in_case_refused");
+            rc.record(key, true, rendered);
+            return Ok(());
+        }
         Err(e) => return Err(Failure::new("harness:template_rejected", e.describe(), rendered())),
     };
+    if colliding {
+        rc.label("input_names_differing_in_case_accepted");
+    }
     let args = sc.args();
     let store = MemStore::new(sc.utxos());
     let cfg = Cfg::default();
